@@ -2,15 +2,79 @@
    This file contains only the property theorems; definitions and proofs are in
    VarintMore.v, Sig.v, Did.v and Crypto.v.
 
-   The Section below lists the trusted base of the symbolic part: the
-   third-party codecs (base58btc / multibase, x509 PKCS#1) as oracles with their
-   round-trip laws, and the crypto libraries as oracles with the symbolic
+   The base encodings are CONCRETE functions: BaseEnc.b58enc / BaseDec.b58dec
+   (base58btc of mr-tron/base58 behind go-multibase), BaseDec.mb64enc /
+   BaseDec.mb_decode (multibase.Encode(Base64pad, .) / multibase.Decode), with
+   their round-trip laws proved (first block below) and compared with the Go
+   libraries on every run (cases_C14_base_*.v).  bytes_ok b says every element of
+   b is below 256, i.e. b is a Go []byte / string.
+
+   The Section below lists the trusted base of the symbolic part: x509 PKCS#1
+   parsing as an oracle, and the crypto libraries as oracles with the symbolic
    (Dolev-Yao) assumption that a signature is accepted for exactly the key and
    message that produced it.  Everything the library itself adds (varint
    framing, multicodec tags, length checks, DID text/byte forms, the algorithm
    gate in Verify, Wrap) is modelled byte for byte and proved. *)
-From Ucanto Require Import Base Varint VarintMore Sig Did Crypto.
+From Ucanto Require Import Base Varint VarintMore Sig BaseEnc BaseDec Did Crypto.
 Open Scope N_scope.
+
+(* ---- base encodings (go-multibase, mr-tron/base58, encoding/base64) ---- *)
+
+(* base58btc: decode (encode b) = b for every non-empty byte string (the Go
+   decoder rejects the empty string, which is the encoding of the empty byte string) *)
+Theorem C14_b58_roundtrip : forall b : bstr, bytes_ok b -> b <> [] -> b58dec (b58enc b) = Some b.
+Proof. exact b58_roundtrip. Qed.
+Print Assumptions C14_b58_roundtrip.
+
+Theorem C14_b58dec_bytes : forall s b : bstr, b58dec s = Some b -> bytes_ok b.
+Proof. exact b58dec_bytes. Qed.
+Print Assumptions C14_b58dec_bytes.
+
+(* a string decodes only to the bytes whose encoding it is: the decoder is injective
+   on its domain, so two different did:key strings never carry the same key *)
+Theorem C14_b58dec_canonical : forall s b : bstr, b58dec s = Some b -> b58enc b = s.
+Proof. exact b58dec_enc. Qed.
+Print Assumptions C14_b58dec_canonical.
+
+Theorem C14_b58dec_injective : forall s1 s2 b : bstr, b58dec s1 = Some b -> b58dec s2 = Some b -> s1 = s2.
+Proof. exact b58dec_inj. Qed.
+Print Assumptions C14_b58dec_injective.
+
+(* the decoder accepts exactly the non-empty strings over the alphabet *)
+Theorem C14_b58dec_domain : forall s : bstr,
+  (exists b, b58dec s = Some b) <-> s <> [] /\ Forall (fun c => In c tbl_b58) s.
+Proof. exact b58dec_domain. Qed.
+Print Assumptions C14_b58dec_domain.
+
+(* multibase base64pad ("M..."), the form of signer key strings *)
+Theorem C14_mb64_roundtrip : forall b : bstr, bytes_ok b -> mb_decode (mb64enc b) = Some b.
+Proof. exact mb_roundtrip. Qed.
+Print Assumptions C14_mb64_roundtrip.
+
+Theorem C14_mb_decode_bytes : forall s b : bstr, bytes_ok s -> mb_decode s = Some b -> bytes_ok b.
+Proof. exact mb_decode_bytes. Qed.
+Print Assumptions C14_mb_decode_bytes.
+
+(* ... whose Go decoder is NOT injective (line breaks are skipped, the bits below the
+   last byte are not checked): different key strings can parse to the same signer.
+   Canonical strings (no line break, dropped bits zero) decode only to the bytes
+   whose encoding they are. *)
+Theorem C14_b64_decode_not_injective :
+  b64pad_dec tbl_b64std (bs "TQ==") = Some [77] /\ b64pad_dec tbl_b64std (bs "TR==") = Some [77] /\
+  b64pad_dec tbl_b64std [84; 10; 81; 13; 61; 61; 10] = Some [77] /\
+  b64pad (bs "M") = bs "TQ==".
+Proof. exact b64pad_dec_not_injective. Qed.
+Print Assumptions C14_b64_decode_not_injective.
+
+Theorem C14_key_string_canonical : forall s b : bstr,
+  b64pad_canonical tbl_b64std s -> mb_decode (77 :: s) = Some b -> mb64enc b = 77 :: s.
+Proof. exact mb64_dec_enc. Qed.
+Print Assumptions C14_key_string_canonical.
+
+Theorem C14_b64_canonical : forall s b : bstr,
+  b64_canonical tbl_b64std s -> b64raw_dec tbl_b64std s = Some b -> b64std b = s.
+Proof. exact (b64raw_dec_enc tbl_b64std tbl_b64std_ok). Qed.
+Print Assumptions C14_b64_canonical.
 
 (* ---- signature framing (ucan/crypto/signature) -------------------- *)
 
@@ -42,15 +106,6 @@ Proof. exact did_roundtrip_pinned_refuted. Qed.
 Print Assumptions C14_did_roundtrip_pinned_refuted.
 
 Section Principals.
-  (* base58btc of go-multibase *)
-  Variable b58enc : bstr -> bstr.
-  Variable b58dec : bstr -> option bstr.
-  Hypothesis b58dec_bytes : forall s b, b58dec s = Some b -> bytes_ok b.
-  Hypothesis b58_roundtrip : forall b, b58dec (b58enc b) = Some b.
-  (* multibase.Encode(Base64pad) / multibase.Decode *)
-  Variable mb64enc : bstr -> bstr.
-  Variable mbdec : bstr -> option bstr.
-  Hypothesis mb_roundtrip : forall b, mbdec (mb64enc b) = Some b.
   (* crypto/x509 PKCS#1 parsing *)
   Variable pkcs1_pub_ok : bstr -> bool.
   Variable pkcs1_priv_pub : bstr -> option bstr.
@@ -62,6 +117,8 @@ Section Principals.
   Variable pub_bytes : alg -> N -> bstr.
   Variable priv_bytes : alg -> N -> bstr.
   Variable raw_sig : alg -> N -> bstr -> bstr.
+  (* key material is a byte string *)
+  Hypothesis pub_bytes_ok : forall a k, kvalid a k = true -> bytes_ok (pub_bytes a k).
   Hypothesis ed_pub_len : forall k, kvalid Ed25519 k = true -> length (pub_bytes Ed25519 k) = 32%nat.
   Hypothesis ed_priv_len : forall k, kvalid Ed25519 k = true -> length (priv_bytes Ed25519 k) = 32%nat.
   Hypothesis rsa_pub_ok : forall k, kvalid RSA k = true -> pkcs1_pub_ok (pub_bytes RSA k) = true.
@@ -81,24 +138,24 @@ Section Principals.
     did_parse b58dec s = Some d ->
     did_decode (did_bytes d) = Some d /\
     exists s', did_to_string b58enc d = Ret s' /\ did_parse b58dec s' = Some d.
-  Proof. exact (did_roundtrip_of_parse b58enc b58dec b58dec_bytes b58_roundtrip). Qed.
+  Proof using. exact (did_roundtrip_of_parse b58enc b58dec b58dec_bytes b58_roundtrip). Qed.
 
   (* ... and so does every DID that Decode returns *)
   Theorem C14_did_roundtrip_decode : forall (b : bstr) (d : did),
     bytes_ok b -> did_decode b = Some d ->
     did_bytes d = b /\ did_decode (did_bytes d) = Some d /\
     exists s', did_to_string b58enc d = Ret s' /\ did_parse b58dec s' = Some d.
-  Proof. exact (did_roundtrip_of_decode b58enc b58dec b58_roundtrip). Qed.
+  Proof using. exact (did_roundtrip_of_decode b58enc b58dec b58_roundtrip). Qed.
 
   (* no two (well-formed) DIDs print the same string *)
   Theorem C14_did_string_injective : forall d1 d2 : did,
-    did_wf d1 = true -> did_wf d2 = true ->
+    did_wf d1 = true -> did_wf d2 = true -> bytes_ok (did_bytes d1) -> bytes_ok (did_bytes d2) ->
     did_to_string_v b58enc d1 = did_to_string_v b58enc d2 -> d1 = d2.
-  Proof. exact (did_to_string_inj b58enc b58dec b58_roundtrip). Qed.
+  Proof using. exact (did_to_string_inj b58enc b58dec b58_roundtrip). Qed.
 
   Theorem C14_did_string_total : forall d : did,
     did_to_string b58enc d = Ret (did_to_string_v b58enc d).
-  Proof. exact (did_to_string_total b58enc). Qed.
+  Proof using. exact (did_to_string_total b58enc). Qed.
 
   (* Encode/Decode and Format/Parse of every decoded verifier and signer *)
   Theorem C14_verifier_roundtrip : forall a b v,
@@ -115,9 +172,9 @@ Section Principals.
   Proof. exact (verifier_decode_did pkcs1_pub_ok). Qed.
 
   Theorem C14_verifier_format_parse : forall a b v,
-    verifier_decode pkcs1_pub_ok a b = Some v ->
+    bytes_ok b -> verifier_decode pkcs1_pub_ok a b = Some v ->
     exists s, verifier_format b58enc v = Ret s /\ verifier_parse b58dec pkcs1_pub_ok a s = Some v.
-  Proof. exact (verifier_format_parse b58enc b58dec b58_roundtrip pkcs1_pub_ok). Qed.
+  Proof using. exact (verifier_format_parse b58enc b58dec b58_roundtrip pkcs1_pub_ok). Qed.
 
   Theorem C14_signer_roundtrip : forall a b s,
     signer_decode pkcs1_pub_ok pkcs1_priv_pub a b = Some s ->
@@ -126,9 +183,9 @@ Section Principals.
   Proof. exact (signer_roundtrip pkcs1_pub_ok pkcs1_priv_pub). Qed.
 
   Theorem C14_signer_format_parse : forall a b s,
-    signer_decode pkcs1_pub_ok pkcs1_priv_pub a b = Some s ->
-    signer_parse mbdec pkcs1_pub_ok pkcs1_priv_pub a (signer_format mb64enc s) = Some s.
-  Proof. exact (signer_format_parse mb64enc mbdec mb_roundtrip pkcs1_pub_ok pkcs1_priv_pub). Qed.
+    bytes_ok b -> signer_decode pkcs1_pub_ok pkcs1_priv_pub a b = Some s ->
+    signer_parse mb_decode pkcs1_pub_ok pkcs1_priv_pub a (signer_format mb64enc s) = Some s.
+  Proof using. exact (signer_format_parse mb64enc mb_decode mb_roundtrip pkcs1_pub_ok pkcs1_priv_pub). Qed.
 
   (* a generated key: its encoding decodes to it; signer, verifier and the
      verifier parsed from the DID string agree on the DID and accept the
@@ -146,7 +203,7 @@ Section Principals.
        verifier_verify raw_verify (verifier_of pub_bytes a k) m (signer_sign sign_bytes s m) = Ret true).
   Proof.
     exact (principals_agree b58enc b58dec b58_roundtrip pkcs1_pub_ok pkcs1_priv_pub raw_verify sign_bytes
-             kvalid pub_bytes priv_bytes raw_sig ed_pub_len ed_priv_len rsa_pub_ok rsa_priv_pub
+             kvalid pub_bytes priv_bytes raw_sig pub_bytes_ok ed_pub_len ed_priv_len rsa_pub_ok rsa_priv_pub
              sign_correct sig_unforgeable raw_sig_inj).
   Qed.
 
@@ -207,6 +264,23 @@ Section Principals.
   Theorem C14_verify_total : forall v msg sig, exists r, verifier_verify raw_verify v msg sig = Ret r.
   Proof. exact (verifier_verify_total raw_verify). Qed.
 End Principals.
+
+(* the hypotheses of the Section are satisfiable (toy keys; Crypto.Toy) *)
+Theorem C14_hyps_satisfiable :
+  (forall a k, Toy.kvalid a k = true -> bytes_ok (Toy.pub_bytes a k)) /\
+  (forall k, Toy.kvalid Ed25519 k = true -> length (Toy.pub_bytes Ed25519 k) = 32%nat) /\
+  (forall k, Toy.kvalid Ed25519 k = true -> length (Toy.priv_bytes Ed25519 k) = 32%nat) /\
+  (forall k, Toy.kvalid RSA k = true -> Toy.pkcs1_pub_ok (Toy.pub_bytes RSA k) = true) /\
+  (forall k, Toy.kvalid RSA k = true -> Toy.pkcs1_priv_pub (Toy.priv_bytes RSA k) = Some (Toy.pub_bytes RSA k)) /\
+  (forall a k m, Toy.kvalid a k = true ->
+     Toy.sign_bytes a (priv_material Toy.pub_bytes Toy.priv_bytes a k) m = Toy.raw_sig a k m) /\
+  (forall a k m r, Toy.kvalid a k = true ->
+     (Toy.raw_verify a (Toy.pub_bytes a k) m r = true <-> r = Toy.raw_sig a k m)) /\
+  (forall a k k' m m', Toy.kvalid a k = true -> Toy.kvalid a k' = true ->
+     Toy.raw_sig a k m = Toy.raw_sig a k' m' -> k = k' /\ m = m') /\
+  sig_fits Toy.raw_sig Ed25519 7 [1; 2; 3].
+Proof. exact Toy.hyps_satisfiable. Qed.
+Print Assumptions C14_hyps_satisfiable.
 
 Print Assumptions C14_did_roundtrip_parse.
 Print Assumptions C14_did_roundtrip_decode.
